@@ -263,8 +263,8 @@ class StreamIO:
     def __init__(self, reader, writer, *, timeout=None, read_timeout=None, write_timeout=None):
         self.reader = reader
         self.writer = writer
-        self.read_timeout = read_timeout or timeout
-        self.write_timeout = write_timeout or timeout
+        self.read_timeout = timeout if read_timeout is None else read_timeout
+        self.write_timeout = timeout if write_timeout is None else write_timeout
 
     @with_timeout("read_timeout")
     async def readline(self):
